@@ -29,8 +29,8 @@ ASSUMPTIONS = [
     'binned wavelength width = 10000 * wavenumber width / centre^2 (first-order conversion at the bin centre, as used for observations)',
     'the reload clause compares constructor-level parameters that the writers store; opacities stay registered in the caches between write and reload',
 ]
-RULE = RULE + ' ' + 'Also: every stored dictionary holds a 0-d array and a non-contiguous view; native points exactly on bin edges; native bin widths and binned optical depths of the stored spectra.'
-REQUIRED = {'native-grid-descending': 0.08, 'dict:array-0d': 0.05, 'dict:array-strided': 0.03, 'native-points-on-bin-edges': 0.03, 'part:retrieval': 0.04, 'part:dict': 0.08, 'part:spectrum': 0.08, 'part:model': 0.08}
+RULE = RULE + ' ' + 'Also: every stored dictionary holds a 0-d array and a non-contiguous view; native points exactly on bin edges; native bin widths and binned optical depths of the stored spectra. Round 9: every stored dictionary also holds a list or tuple of python ints (one above 2**53), read back exactly and with an integer dtype.'
+REQUIRED = {'whole-number-list': 0.08, 'native-grid-descending': 0.08, 'dict:array-0d': 0.05, 'dict:array-strided': 0.03, 'native-points-on-bin-edges': 0.03, 'part:retrieval': 0.04, 'part:dict': 0.08, 'part:spectrum': 0.08, 'part:model': 0.08}
 # coverage-guided extra (thorough tier): pure-Python taurex modules on this property's path, instrumented by atheris
 FUZZ = {'include': ['taurex.output', 'taurex.util.output', 'taurex.util.hdf5', 'taurex.util.util', 'taurex.binning'], 'runs': 8000, 'workers': 4}
 
@@ -136,10 +136,14 @@ def realise(node):
         return a.astype(np.int64) if dt == 'i' else a
     if k == 'str':
         return str(node[1])
-    if k == 'numlist':
-        return [float(v) for v in node[1]]
-    if k == 'numtuple':
-        return tuple(float(v) for v in node[1])
+    if k in ('numlist', 'numtuple'):
+        if node[1] and all(isinstance(v, int) for v in node[1]):
+            return list(node[1]) if k == 'numlist' else tuple(node[1])
+        vals = [float(v) for v in node[1]]
+        if vals and int(math.fmod(abs(vals[0]), 7.0) + len(vals)) % 3 == 0:
+            # a list / tuple of whole numbers (python ints up to 2**62, beyond what a float holds exactly)
+            vals = [int(math.fmod(v, 2.0 ** 62)) for v in vals]
+        return vals if k == 'numlist' else tuple(vals)
     if k == 'strlist':
         return [str(v) for v in node[1]]
     if k == 'ragged':
@@ -192,6 +196,12 @@ def compare(out, node, h5, path):
         if s != obj:
             out.fail('dict-roundtrip@string', '%s: stored %r read %r' % (path, obj, s))
         return
+    if k in ('numlist', 'numtuple') and len(obj) > 0 and all(isinstance(x, int) for x in obj):
+        out.cls('whole-number-list')
+        g = np.asarray(got)
+        if g.dtype.kind not in 'iu' or [int(x) for x in g.ravel().tolist()] != list(obj):
+            out.fail('dict-roundtrip@%s,whole-numbers' % k, '%s: stored %r read %r (dtype %s)' % (path, obj, got, g.dtype))
+        return
     if k in ('numlist', 'numtuple', 'ragged'):
         want = np.array(obj, dtype=float)
         if not np.array_equal(np.asarray(got, dtype=float), want):
@@ -216,6 +226,8 @@ def check_dict(out, c, tmp):
     vals27 = [seedv[i % len(seedv)] * (1 + i) for i in range(27)]
     tree[1].setdefault('zeroDimArr', ['array', 'f' if len(tree[1]) % 2 else 'i', [], vals27])
     tree[1].setdefault('stridedArr', ['array', 's', [2, 3], vals27])
+    # and a list or tuple of whole numbers, one of them beyond what a float holds exactly
+    tree[1].setdefault('wholeNumbers', ['numtuple' if len(tree[1]) % 2 else 'numlist', [2 ** 53 + 1 + int(abs(v)) for v in seedv[:3]] + [-7, 0, int(vals27[5])]])
     obj = realise(tree)
     for kd in ('array-0d', 'array-strided'):
         if kd in collect_kinds(tree):
